@@ -2,11 +2,11 @@
 
 Kernel: Output.plot and _plot_core of the standard line plot, obsfcst, qq,
 sort, hist, freq (harness `diagrams`) and qq with -x/-q, scatter, error, change,
-cond, marginal, reliability, discrimination, roc, pithist, timeseries (`diagrams2.*`), on a real Data object with symbolic cells.
+cond, marginal, reliability, discrimination, roc, droc0, pithist, timeseries (`diagrams2.*`), on a real Data object with symbolic cells.
 Boundary: matplotlib.pyplot is a recording stub -- the claim concerns the x / y
 arrays handed to plot()/bar(), one series per input in command-line order, and
 that every valid case falls in exactly one bin of a binned diagram.
-NOT decided: the other 11 diagrams, maps, rank and impact views, and whether
+NOT decided: the other 10 diagrams, maps, rank and impact views, and whether
 matplotlib draws what it is given."""
 import numpy as np
 
@@ -210,7 +210,8 @@ def run(S, which, T, L, P):
                 S.prove("bin-height=%s" % which, S.same(ys[b], w), twin=S.same(ys[b], w + 1))
 
 
-DIAGRAMS2 = ["roc", "discrimination", "pithist", "reliability/below", "reliability/above", "qq+quantiles/location", "qq+quantiles/no", "scatter/no", "scatter/location", "error/location", "change", "cond", "marginal/above", "marginal/below", "timeseries"]
+DIAGRAMS2_DEV = ["performance/time"]      # not registered: Performance._get_f_intervals forks on the order statistics of the forecasts even with -simple (16 000+ paths for two cases)
+DIAGRAMS2 = ["droc0", "roc", "discrimination", "pithist", "reliability/below", "reliability/above", "qq+quantiles/location", "qq+quantiles/no", "scatter/no", "scatter/location", "error/location", "change", "cond", "marginal/above", "marginal/below", "timeseries"]
 
 
 def h_diagrams2(which, big):
@@ -231,7 +232,7 @@ def run2(S, which, big):
     MI = common.input_class()
     T, L, P = {"scatter/no": (2, 1, 2), "scatter/location": (2, 1, 2), "error/location": (2, 1, 2), "change": (3, 1, 1),
                "cond": (2, 1, 1), "qq+quantiles/location": (2, 1, 2), "qq+quantiles/no": (2, 1, 1),
-               "roc": (3, 1, 1), "discrimination": (3, 1, 1), "pithist": (3, 1, 1), "reliability/below": (3, 1, 1), "reliability/above": (3, 1, 1), "marginal/above": (2, 1, 2), "marginal/below": (2, 1, 2), "timeseries": (2, 2, 2)}[which]
+               "droc0": (3, 1, 1), "performance/time": (2, 1, 1), "roc": (3, 1, 1), "discrimination": (3, 1, 1), "pithist": (3, 1, 1), "reliability/below": (3, 1, 1), "reliability/above": (3, 1, 1), "marginal/above": (2, 1, 2), "marginal/below": (2, 1, 2), "timeseries": (2, 2, 2)}[which]
     if big and which in ("scatter/no", "scatter/location"):
         L = 2
     if big and which == "cond":
@@ -316,6 +317,17 @@ def run2(S, which, big):
     elif which == "cond":
         pl = out.Cond()
         pl.thresholds = S.vector(t)
+    elif which == "droc0":
+        pl = out.DRoc0()
+        pl.simple = True                # without the threshold labels at the points (text formatting)
+        pl.thresholds = S.vector([t[0]])
+        pl.bin_type = "above"
+    elif which == "performance/time":
+        pl = out.Performance()
+        pl.simple = True                # without the "potential" curves
+        pl.thresholds = S.vector([t[0]])
+        pl.bin_type = "above"
+        pl.axis = ax.Time()
     elif which == "roc":
         pl = out.Roc()
         pl.thresholds = S.const([1.0])
@@ -360,6 +372,41 @@ def run2(S, which, big):
         got = S.elements(got)
         return len(got) == len(want) and bool(S.all(S.same(a, b) for a, b in zip(got, want)))
 
+    if which in ("droc0", "performance/time"):
+        if not common_cells:
+            return      # no valid case at all: what an empty diagram shows is not prescribed
+        S.prove("one-series-per-input-in-order", [c[3]["label"] for c in series][:2] == list(names) and len(series) == 2, detail=which)
+
+        def table(k, sel):
+            o, fc = raw[k]
+            a = S.count(S.and_(fc[q] > t[0], o[q] > t[0]) for q in sel)
+            b = S.count(S.and_(fc[q] > t[0], S.not_(o[q] > t[0])) for q in sel)
+            c_ = S.count(S.and_(S.not_(fc[q] > t[0]), o[q] > t[0]) for q in sel)
+            return a, b, c_, len(sel) - a - b - c_
+
+        def ratio(num, den):
+            return S.ite(den == 0, float("nan"), S.div(num, den))
+        for k, c in enumerate(series[:2]):
+            xs, ys = S.elements(c[2][0]), S.elements(c[2][1])
+            S.observe("curve", [xs, ys])
+            if which == "droc0":
+                S.prove("points-per-curve", len(xs) == 3 and len(ys) == 3, detail=which)
+                if len(xs) != 3:
+                    continue
+                a, b, c_, d = table(k, common_cells)
+                S.prove("end-points", S.and_(S.same(xs[0], 1), S.same(ys[0], 1), S.same(xs[2], 0), S.same(ys[2], 0)), detail=which)
+                S.prove("point=(false-alarm-rate, hit-rate)-of-the-threshold",
+                        S.and_(S.same(xs[1], ratio(b, b + d)), S.same(ys[1], ratio(a, a + c_))),
+                        twin=S.same(ys[1], ratio(a, a + c_) + 1), detail=which)
+            else:
+                S.prove("one-point-per-time", len(xs) == T and len(ys) == T, detail=which)
+                for p in range(min(T, len(xs))):
+                    a, b, c_, d = table(k, [q for q in common_cells if q[0] == p])
+                    far = ratio(b, a + b)
+                    S.prove("point=(success-ratio, hit-rate)-of-the-slice",
+                            S.and_(S.same(xs[p], 1 - far), S.same(ys[p], ratio(a, a + c_))),
+                            twin=S.same(ys[p], ratio(a, a + c_) + 1), detail=which)
+        return
     if which == "roc":
         # per input: (1,1), then for each probability level (false alarm rate, hit rate) of "forecast the event
         # when its probability is at least the level", then (0,0); a rate without cases is NaN
@@ -621,5 +668,5 @@ def h_bin_helper(N):
 def harnesses(tier):
     thorough = tier == "thorough"
     return [Harness("diagrams", h_diagrams(2, 2 if thorough else 1, 2), "draw-call arguments of 6 diagrams vs their definitions"),
-            ] + [Harness("diagrams2." + w, h_diagrams2(w, thorough), "%s diagram vs its definition" % w) for w in DIAGRAMS2] + [
+            ] + [Harness("diagrams2." + w, h_diagrams2(w, thorough), "%s diagram vs its definition" % w) for w in DIAGRAMS2 + (DIAGRAMS2_DEV if __import__("os").environ.get("VERIF_DEV") else [])] + [
             Harness("bin_helper", h_bin_helper(3 if thorough else 2), "util.bin: the binning helper of the binned diagrams")]
